@@ -46,9 +46,65 @@ fn has_border(p: &[u8]) -> bool {
 
 fn check_pair(p: &[u8], t: &[u8], cc: &mut CaseCtx) {
     let want = naive(p, t);
+    check_pair_against(p, t, want, None, cc)
+}
+
+/// all occurrences by the Z-function of the pattern (linear time; used where the quadratic scan
+/// is too slow).  z[i] = length of the longest common prefix of p and p[i..].
+pub fn z_occurrences(p: &[u8], t: &[u8]) -> Vec<usize> {
+    let m = p.len();
+    if m == 0 || t.len() < m {
+        return vec![];
+    }
+    let mut z = vec![0usize; m];
+    z[0] = m;
+    let (mut l, mut r) = (0usize, 0usize);
+    for i in 1..m {
+        if i < r {
+            z[i] = z[i - l].min(r - i);
+        }
+        while i + z[i] < m && p[z[i]] == p[i + z[i]] {
+            z[i] += 1;
+        }
+        if i + z[i] > r {
+            l = i;
+            r = i + z[i];
+        }
+    }
+    // match the text against p with the same window technique
+    let mut out = vec![];
+    let (mut l, mut r) = (0usize, 0usize); // t[l..r) matches p[0..r-l)
+    for i in 0..t.len() {
+        let mut k = 0usize;
+        if i < r {
+            k = z[i - l].min(r - i);
+            if i - l >= m {
+                k = 0;
+            }
+        }
+        while k < m && i + k < t.len() && p[k] == t[i + k] {
+            k += 1;
+        }
+        if i + k > r {
+            l = i;
+            r = i + k;
+        }
+        if k == m {
+            out.push(i);
+        }
+    }
+    out
+}
+
+/// `only`: restrict to one matcher (the quadratic worst case of Horspool/BOM makes some huge
+/// inputs infeasible for them; KMP is linear)
+fn check_pair_against(p: &[u8], t: &[u8], want: Vec<usize>, only: Option<usize>, cc: &mut CaseCtx) {
     cc.set_nontrivial(has_border(p) && want.len() >= 1 || want.len() >= 2);
     cc.outcome(&want);
     for (w, name) in MATCHERS.iter().enumerate() {
+        if only.map_or(false, |o| o != w) {
+            continue;
+        }
         let bitparallel = w < 2;
         match run_matcher(w, p, t) {
             Err(msg) => {
@@ -241,6 +297,85 @@ fn boundary_family(tier: Tier, shard: usize, nshards: usize, ctx: &mut Ctx) {
     }
 }
 
+// ------------------------------------------------------------------ patterns beyond 2^16 symbols
+// (tables indexed or filled with pattern positions must not be narrower than usize)
+
+fn huge_pattern(u: &[u8], m: usize, break_last: bool) -> Vec<u8> {
+    let mut p: Vec<u8> = u.iter().cycle().take(m).cloned().collect();
+    if break_last {
+        let last = p[m - 1];
+        p[m - 1] = if last == b'z' { b'y' } else { b'z' };
+    }
+    p
+}
+
+/// text shapes: 0 = the period continued for 8 more symbols (overlapping occurrences),
+/// 1 = the pattern with its last symbol spoiled, then the pattern (partial occurrence, then a real
+/// one that overlaps nothing), 2 = one symbol, then the pattern twice overlapping by half
+fn huge_text(u: &[u8], p: &[u8], shape: u8) -> Vec<u8> {
+    let m = p.len();
+    match shape {
+        0 => {
+            let mut t: Vec<u8> = u.iter().cycle().take(m + 8).cloned().collect();
+            // keep the pattern's own last symbol where the first occurrence ends
+            t[m - 1] = p[m - 1];
+            t
+        }
+        1 => {
+            let mut t = p[..m - 1].to_vec();
+            t.push(b'#');
+            t.extend_from_slice(p);
+            t
+        }
+        _ => {
+            let mut t = vec![b'#'];
+            t.extend_from_slice(p);
+            let h = (m / 2 / u.len()) * u.len();
+            t.extend_from_slice(&p[m - h..]);
+            t.extend_from_slice(&p[..]);
+            t
+        }
+    }
+}
+
+fn huge_case(u: &[u8], m: usize, break_last: bool, shape: u8, cc: &mut CaseCtx) {
+    let p = huge_pattern(u, m, break_last);
+    let t = huge_text(u, &p, shape);
+    let want = z_occurrences(&p, &t);
+    // shapes 1 and 2 have |t| - |p| of the order of |p|: only the linear-time matcher
+    let only = if shape == 0 || m <= 300 { None } else { Some(4) };
+    check_pair_against(&p, &t, want, only, cc);
+}
+
+fn huge_unit(tier: Tier, ctx: &mut Ctx) {
+    let lens: Vec<usize> = tier.pick(vec![255, 256, 257, 65_535, 65_536, 65_537, 70_000], vec![255, 256, 257, 65_535, 65_536, 65_537, 70_000, 131_073, 200_001]);
+    // the linear oracle is validated against the quadratic scan on every pair over {a,b}^<=6 x
+    // {a,b}^<=9 and on the small members of the family; a disagreement is a bug of this check
+    // (machinery error), never a verdict
+    for p in gen::strings(b"ab", 1, 6) {
+        for t in gen::strings(b"ab", 0, 9) {
+            assert_eq!(z_occurrences(&p, &t), naive(&p, &t), "oracle self-check failed on {:?} {:?}", p, t);
+        }
+    }
+    for u in [&b"a"[..], b"ab", b"aab"] {
+        for &m in &lens {
+            for break_last in [false, true] {
+                for shape in 0..3u8 {
+                    if m <= 300 {
+                        let p = huge_pattern(u, m, break_last);
+                        let t = huge_text(u, &p, shape);
+                        assert_eq!(z_occurrences(&p, &t), naive(&p, &t), "oracle self-check failed (family member)");
+                    }
+                    ctx.case(
+                        || json!({"kind": "huge", "u": show(u), "m": m, "break_last": break_last, "shape": shape}),
+                        |cc| huge_case(u, m, break_last, shape, cc),
+                    );
+                }
+            }
+        }
+    }
+}
+
 fn reuse_unit(tier: Tier, ctx: &mut Ctx) {
     let pats = gen::strings(b"ab", 1, tier.pick(3, 4));
     let texts: Vec<Vec<u8>> = vec![
@@ -293,13 +428,15 @@ impl Prop for C08Prop {
             "ternary": {"pattern_len": format!("1..={}", p3), "text_len": format!("0..={}", t3)},
             "embeddings": ["a,b,c", "0x00,0xFF,0x80", "0x7F,0x80,0x01"],
             "boundary_lengths": tier.pick("31,32,33,63,64,65", "15,16,17,31,32,33,62,63,64,65,66,128"),
-            "reuse": "patterns {a,b}^{1..3|4} x ordered triples of 6 texts, iterators interleaved"
+            "reuse": "patterns {a,b}^{1..3|4} x ordered triples of 6 texts, iterators interleaved",
+            "huge_patterns": tier.pick("periodic patterns u^r (u in a, ab, aab; last symbol kept or broken) of length 255,256,257,65535,65536,65537,70000 x 3 text shapes (period continued, spoiled partial occurrence then a real one, two occurrences overlapping by half — the last two shapes for KMP only above length 300, the others are quadratic there); oracle = Z-function", "as quick plus lengths 131073, 200001")
         })
     }
     fn units(&self, _tier: Tier) -> Vec<String> {
         let mut v: Vec<String> = (0..SWEEP_SHARDS).map(|i| format!("sweep-{}", i)).collect();
         v.extend((0..BOUNDARY_SHARDS).map(|i| format!("boundary-{}", i)));
         v.push("reuse".into());
+        v.push("huge-patterns".into());
         v
     }
     fn run_unit(&self, tier: Tier, unit: usize, ctx: &mut Ctx) {
@@ -307,11 +444,21 @@ impl Prop for C08Prop {
             small_sweep(tier, unit, SWEEP_SHARDS, ctx);
         } else if unit < SWEEP_SHARDS + BOUNDARY_SHARDS {
             boundary_family(tier, unit - SWEEP_SHARDS, BOUNDARY_SHARDS, ctx);
-        } else {
+        } else if unit == SWEEP_SHARDS + BOUNDARY_SHARDS {
             reuse_unit(tier, ctx);
+        } else {
+            huge_unit(tier, ctx);
         }
     }
     fn replay(&self, case: &Value, ctx: &mut Ctx) {
+        if case["kind"] == "huge" {
+            let u = unshow(case["u"].as_str().unwrap_or("a"));
+            let m = case["m"].as_u64().unwrap() as usize;
+            let bl = case["break_last"].as_bool().unwrap_or(false);
+            let shape = case["shape"].as_u64().unwrap_or(0) as u8;
+            ctx.case(|| case.clone(), |cc| huge_case(&u, m, bl, shape, cc));
+            return;
+        }
         let p = unshow(case["p"].as_str().unwrap_or(""));
         if case["kind"] == "reuse" {
             let ts: Vec<Vec<u8>> = case["texts"]
